@@ -6,6 +6,7 @@ import (
 	"go/token"
 	"go/types"
 	"reflect"
+	"regexp"
 	"sort"
 	"strconv"
 	"strings"
@@ -557,8 +558,15 @@ func (ex *expansion) isLocal(o types.Object) bool {
 		return false
 	}
 	p := o.Parent()
+	if o.Pkg() != ex.in.pk.Types {
+		return false
+	}
 	return p != nil && p != pkgScope && p != types.Universe
 }
+
+// synthesized: a name introduced by an earlier expansion (its declaring identifier has no
+// types.Object, so it is recognised by its suffix).
+var synthesizedRE = regexp.MustCompile(`_i[0-9]+$`)
 
 // captureOK: every package-level / universe / imported name the callee refers to means the
 // same thing at the call site; missing imports are added to the caller's file.
@@ -717,7 +725,7 @@ func (ex *expansion) copyValue(v reflect.Value) reflect.Value {
 			if o != nil {
 				ex.in.uses[nid] = o
 			}
-			if (o != nil && ex.isLocal(o)) || ex.in.implicit[id] {
+			if (o != nil && ex.isLocal(o)) || ex.in.implicit[id] || synthesizedRE.MatchString(id.Name) {
 				if id.Name != "_" {
 					nid.Name = id.Name + ex.suffix
 				}
